@@ -59,7 +59,8 @@ let handle op args =
       let a = { fa_syntax = syn; fa_label = pres_lbl_of lbl; fa_oneof = bool_of_tok oneof; fa_p3opt = bool_of_tok p3;
                 fa_msg = bool_of_tok msg; fa_ext = bool_of_tok ext; fa_fp = fp } in
       let (u, l) = use_presence a (bool_of_tok ismap) (bool_of_tok islazy) in
-      [tok_of_bool (has_presence a); tok_of_bool u; tok_of_bool l]
+      [tok_of_bool (has_presence a); tok_of_bool u; tok_of_bool l;
+       hex_of_n (PresenceCodec.pc_card a (bool_of_tok ismap) false)]
   | "bitmap", _ :: nwords :: ops ->
       let s = ref (pres_zeros (int_of_n (n_of_hex nwords))) in
       let out = ref [] in
